@@ -57,6 +57,31 @@ theorem langOf_textChild (ns : String) (p : String × String) : langOf (textChil
   · simp [h, lastAttr]
   · simp [h, lastAttr, langAttr]
 
+theorem mem_insertText (p q : String × String) (l : List (String × String)) :
+    q ∈ insertText p l ↔ q = p ∨ q ∈ l := by
+  induction l with
+  | nil => simp [insertText]
+  | cons x xs ih =>
+    simp only [insertText]
+    split
+    · simp
+    · simp only [List.mem_cons, ih]
+      constructor
+      · rintro (h | h | h)
+        · right; left; exact h
+        · left; exact h
+        · right; right; exact h
+      · rintro (h | h | h)
+        · right; left; exact h
+        · left; exact h
+        · right; right; exact h
+
+/-- sorting the languages loses and invents nothing -/
+theorem mem_sortTexts (q : String × String) (l : List (String × String)) : q ∈ sortTexts l ↔ q ∈ l := by
+  induction l with
+  | nil => simp [sortTexts]
+  | cons x xs ih => simp [sortTexts, mem_insertText, ih]
+
 theorem contentOf_wrap (n : Name) (as : List Attr) (c : List Tok) (t : Tok) :
     contentOf (.start n as :: c ++ [t]) = some (as, c) := by
   simp [contentOf, List.dropLast_concat]
